@@ -13,6 +13,7 @@ Inductive mark : Type :=
 | MInt (z : Z)            (* 0, 1, 5, ranks ... *)
 | MStr (s : string)       (* "", "marked", ... *)
 | MFloat (q : Q)          (* 0.0, 1.0, ... *)
+| MNaN                    (* float('nan'), np.nan: bool(nan) is True *)
 | MNone.                  (* None *)
 
 (* Python bool(v) *)
@@ -22,6 +23,7 @@ Definition truthy (m : mark) : bool :=
   | MInt z => negb (z =? 0)
   | MStr s => match s with EmptyString => false | _ => true end
   | MFloat q => negb (Qeq_bool q 0)
+  | MNaN => true
   | MNone => false
   end.
 
